@@ -12,10 +12,11 @@ Definition cid := (tid * nat)%type.      (* (creating task, its k-th context) *)
 Record task := Task {
   stack : list cid;     (* entered contexts, innermost first; the bottom may be inherited *)
   created : nat;        (* contexts created by this task so far *)
-  alive : bool }.
+  alive : bool;
+  pre : option (cid * option cid) }.   (* a context created earlier (with the parent it got then), not entered yet *)
 
 Definition state := list task.
-Definition init : state := [Task [] 0 true].   (* the main task, no current context *)
+Definition init : state := [Task [] 0 true None].   (* the main task, no current context *)
 
 Definition top (t : task) : option cid := match stack t with c :: _ => Some c | [] => None end.
 
@@ -29,6 +30,7 @@ Inductive op :=
 | Leave (t : tid) (h : how)       (* the innermost block of t ends *)
 | Observe (t : tid)               (* current_context() *)
 | NewCtx (t : tid)                (* Context() created but not entered: which parent does it get *)
+| EnterPre (t : tid)              (* enter the context created by the last NewCtx (whatever is current now) *)
 | CompProbe (t : tid)             (* start a probe component: inside its start() a new Context()'s parent *)
 | Spawn (t : tid) (k : skind)     (* a new task *)
 | Finish (t : tid).               (* the task function returns *)
@@ -54,7 +56,7 @@ Definition step (s : state) (o : op) : state * out :=
       match nth_error s t with
       | Some x => if alive x then
                     let c := (t, created x) in
-                    (upd s t (Task (c :: stack x) (S (created x)) true), OEntered c (top x))
+                    (upd s t (Task (c :: stack x) (S (created x)) true (pre x)), OEntered c (top x))
                   else (s, OInvalid)
       | None => (s, OInvalid)
       end
@@ -63,7 +65,7 @@ Definition step (s : state) (o : op) : state * out :=
       | Some x =>
           match stack x with
           | c :: rest => if alive x && Nat.eqb (fst c) t   (* a task leaves only what it entered itself *)
-                         then (upd s t (Task rest (created x) true),
+                         then (upd s t (Task rest (created x) true (pre x)),
                                OCurrent (match rest with c' :: _ => Some c' | [] => None end))
                          else (s, OInvalid)
           | [] => (s, OInvalid)
@@ -74,7 +76,17 @@ Definition step (s : state) (o : op) : state * out :=
       match nth_error s t with Some x => (s, OCurrent (top x)) | None => (s, OInvalid) end
   | NewCtx t =>
       match nth_error s t with
-      | Some x => (upd s t (Task (stack x) (S (created x)) (alive x)), OParent (top x))
+      | Some x => (upd s t (Task (stack x) (S (created x)) (alive x) (Some ((t, created x), top x))), OParent (top x))
+      | None => (s, OInvalid)
+      end
+  | EnterPre t =>
+      match nth_error s t with
+      | Some x =>
+          match pre x with
+          | Some (c, p) => if alive x then (upd s t (Task (c :: stack x) (created x) true None), OEntered c p)
+                           else (s, OInvalid)
+          | None => (s, OInvalid)
+          end
       | None => (s, OInvalid)
       end
   | CompProbe t =>
@@ -88,11 +100,11 @@ Definition step (s : state) (o : op) : state * out :=
           if alive x then
             let n := length s in
             match k with
-            | SPlain => (s ++ [Task (match top x with Some c => [c] | None => [] end) 0 true],
+            | SPlain => (s ++ [Task (match top x with Some c => [c] | None => [] end) 0 true None],
                          OSpawned n (top x) None)
             | SService =>
                 match top x with
-                | Some owner => (s ++ [Task [(n, 0); owner] 1 true], OSpawned n (Some (n, 0)) (Some owner))
+                | Some owner => (s ++ [Task [(n, 0); owner] 1 true None], OSpawned n (Some (n, 0)) (Some owner))
                 | None => (s, OInvalid)
                 end
             end
@@ -101,7 +113,7 @@ Definition step (s : state) (o : op) : state * out :=
       end
   | Finish t =>
       match nth_error s t with
-      | Some x => (upd s t (Task (stack x) (created x) false), ODone)
+      | Some x => (upd s t (Task (stack x) (created x) false (pre x)), ODone)
       | None => (s, OInvalid)
       end
   end.
@@ -110,5 +122,5 @@ Definition run (s : state) (h : list op) : state := fold_left (fun s o => fst (s
 
 Definition actor (o : op) : tid :=
   match o with
-  | Enter t | Leave t _ | Observe t | NewCtx t | CompProbe t | Spawn t _ | Finish t => t
+  | Enter t | Leave t _ | Observe t | NewCtx t | EnterPre t | CompProbe t | Spawn t _ | Finish t => t
   end.
